@@ -460,6 +460,8 @@ enum CommandExecutionError {
     Killed { signal: i32 },
     CannotRun(io::Error),
     NotFound,
+    // exit code 1: with -I, the command line after substitution is too large
+    ArgumentTooLarge,
     Unknown,
 }
 
@@ -472,6 +474,7 @@ impl Display for CommandExecutionError {
             }
             Self::CannotRun(err) => write!(f, "Command could not be run: {err}"),
             Self::NotFound => write!(f, "Command not found"),
+            Self::ArgumentTooLarge => write!(f, "Argument too large"),
             Self::Unknown => write!(f, "Unknown error running command"),
         }
     }
@@ -488,6 +491,10 @@ struct CommandBuilderOptions {
     action: ExecAction,
     env: HashMap<OsString, OsString>,
     limiters: LimiterCollection,
+    /// The limiters before the command and its initial arguments were charged
+    /// to them: with -I the arguments that are executed are not the initial
+    /// ones but what the substitution makes of them.
+    empty_limiters: LimiterCollection,
     verbose: bool,
     close_stdin: bool,
     replace: Option<String>,
@@ -503,6 +510,7 @@ impl CommandBuilderOptions {
             ExecAction::Command(args) => args.iter().map(std::convert::AsRef::as_ref).collect(),
             ExecAction::Echo => vec![OsStr::new("echo")],
         };
+        let empty_limiters = limiters.clone();
 
         for arg in initial_args {
             limiters.try_arg(Argument {
@@ -515,6 +523,7 @@ impl CommandBuilderOptions {
             action,
             env,
             limiters,
+            empty_limiters,
             verbose: false,
             close_stdin: false,
             replace,
@@ -562,6 +571,19 @@ impl CommandBuilder<'_> {
                 .iter()
                 .map(|arg| replace_in_os_str(arg, replace_str, first_extra_arg))
                 .collect();
+
+            // The line was measured as it was read; what is executed is the
+            // command with the line substituted into its arguments.
+            let mut limiters = self.options.empty_limiters.clone();
+            for arg in std::iter::once(entry_point).chain(initial_args.iter().map(AsRef::as_ref)) {
+                let arg = Argument {
+                    arg: arg.to_owned(),
+                    kind: ArgumentKind::Initial,
+                };
+                if limiters.try_arg(arg).is_err() {
+                    return Err(CommandExecutionError::ArgumentTooLarge);
+                }
+            }
 
             command
                 .args(&initial_args)
@@ -1257,6 +1279,7 @@ pub fn xargs_main(args: &[&str]) -> i32 {
                     CommandExecutionError::Killed { .. } => 125,
                     CommandExecutionError::CannotRun(_) => 126,
                     CommandExecutionError::NotFound => 127,
+                    CommandExecutionError::ArgumentTooLarge => 1,
                     CommandExecutionError::Unknown => 1,
                 }
             } else {
